@@ -1,6 +1,8 @@
 package main
 
 import (
+	"crypto/sha256"
+	"crypto/sha512"
 	"go/types"
 	"math/big"
 	"strings"
@@ -11,6 +13,7 @@ import (
 func registerMoreIntrinsics() {
 	registerECIntrinsics()
 	registerKVIntrinsics()
+	registerThreadIntrinsics()
 	m := map[string]intrinsicFn{
 		"encoding/hex.EncodeToString": func(p *Path, _ *ssa.Function, a []Value) Value {
 			bs := termsOf(a[0].(Slice))
@@ -86,6 +89,12 @@ func registerMoreIntrinsics() {
 			}
 			panic(p.unsupported("json.Unmarshal of bytes that are not a json.Marshal blob"))
 		},
+		"crypto/sha512.New": func(p *Path, _ *ssa.Function, a []Value) Value {
+			return Iface{t: hasherType, v: &Opaque{kind: "hasher", data: &hasherState{name: "sha512", size: 64}}}
+		},
+		"crypto/sha256.New": func(p *Path, _ *ssa.Function, a []Value) Value {
+			return Iface{t: hasherType, v: &Opaque{kind: "hasher", data: &hasherState{name: "sha256", size: 32}}}
+		},
 		"strings.TrimSpace": func(p *Path, _ *ssa.Function, a []Value) Value {
 			s, ok := a[0].(Str).concrete()
 			if !ok {
@@ -157,4 +166,47 @@ func (p *Path) clockTick() *Term {
 	p.clock = t
 	p.inputs = append(p.inputs, InputRec{Kind: "clock", Terms: []*Term{t}})
 	return t
+}
+
+// streaming hash.Hash model: the digest is a function (real on concrete input,
+// uninterpreted otherwise) of all bytes written since the last Reset.
+type hasherState struct {
+	name string
+	size int
+	buf  []*Term
+}
+
+var hasherType = types.NewPointer(types.NewNamed(types.NewTypeName(0, nil, "symhasher", nil), types.NewStruct(nil, nil), nil))
+
+func (p *Path) hasherCall(op *Opaque, method string, args []Value) Value {
+	h := op.data.(*hasherState)
+	switch method {
+	case "Write":
+		bs := termsOf(args[0].(Slice))
+		h.buf = append(h.buf, bs...)
+		return Tuple{p.i64(uint64(len(bs))), Iface{}}
+	case "Reset":
+		h.buf = nil
+		return nil
+	case "Size":
+		return p.i64(uint64(h.size))
+	case "BlockSize":
+		return p.i64(128)
+	case "Sum":
+		in := termsSlice(h.buf)
+		var real func([]byte) []byte
+		switch h.name {
+		case "sha512":
+			real = func(b []byte) []byte { s := sha512.Sum512(b); return s[:] }
+		default:
+			real = func(b []byte) []byte { s := sha256.Sum256(b); return s[:] }
+		}
+		d := p.hashUF(h.name, in, h.size, real)
+		out := args[0].(Slice)
+		for _, x := range d {
+			out = append(out, x)
+		}
+		return out
+	}
+	panic(p.unsupported("hash.Hash method " + method))
 }
